@@ -75,8 +75,10 @@ def gen_op(s: Choices, family: str, ds, mask_kinds=("none", "bool", "slice", "po
             op["window"] = 0  # degenerate: the result could be (a view of) the input
         if name.startswith("rolling_"):
             op["min_periods"] = [None, 1, op["window"]][s.draw(3)]
+            op["ibg"] = s.chance(1, 5)  # index_by_groups: goes through the group-sorted indexer
     elif name in ("ema", "ema_timed"):
         op["mask"] = gen.gen_mask(s, ds, tuple(k for k in mask_kinds if k in ("none", "bool")))
+        op["ibg"] = s.chance(1, 5)
         if name == "ema":
             op["alpha"] = [0.5, 0.25, 1.0][s.draw(3)]
         else:
@@ -140,13 +142,13 @@ def call_op(gb, op, values, mask, ds, class_form_keys=None, times=None):
             if name == "cumcount":
                 return m("cumcount", mask=mask)
             if name.startswith("rolling_"):
-                return m(name, values, window=op["window"], min_periods=op["min_periods"], mask=mask)
+                return m(name, values, window=op["window"], min_periods=op["min_periods"], mask=mask, index_by_groups=op.get("ibg", False))
             if name in ("shift", "diff"):
                 return m(name, values, window=op["window"], mask=mask)
             if name == "ema":
-                return m("ema", values, alpha=op["alpha"], mask=mask)
+                return m("ema", values, alpha=op["alpha"], mask=mask, index_by_groups=op.get("ibg", False))
             if name == "ema_timed":
-                return m("ema", values, halflife=op["halflife"], times=build_times(ds, op) if times is None else times, mask=mask)
+                return m("ema", values, halflife=op["halflife"], times=build_times(ds, op) if times is None else times, mask=mask, index_by_groups=op.get("ibg", False))
             if name in ("head", "tail", "nth"):
                 return m(name, values, op["n"], keep_input_index=op["keep_input_index"])
             if name == "group_nearby_members":
